@@ -80,6 +80,31 @@ def curated():
     out.append(('where-truthy-list', {'start': ('where', ('star', ('str', 'a')), ('py', 'lambda v: v'))}))
     out.append(('where-truthy-float-none', {'start': ('seq', [
         ('where', D, ('py', 'lambda n: n * 1.5 if n != 2 else None')), ('where', T, ('py', "lambda v: {'a': 3, 'b': 0}[v]"))])}))
+    # a predicate that REJECTS a token written directly (not through a rule) where the enclosing
+    # construct must restore the position: repetition element, non-last alternative, option, list
+    # element, Skip operand, Longest option
+    REJ_B = ('where', T, ('py', "lambda w: w != 'b'"))
+    REST = ('re', '[ab]*', False)
+    out.append(('where-token-star', {'start': ('seq', [('star', REJ_B), REST])}))
+    out.append(('where-token-plus-alt', {'start': ('alt', [('seq', [('plus', REJ_B), ('str', '!')]), REST])}))
+    out.append(('where-token-alt', {'start': ('seq', [('alt', [REJ_B, ('str', 'ba')]), REST])}))
+    out.append(('where-token-opt', {'start': ('seq', [('opt', REJ_B), REST])}))
+    out.append(('where-token-sep', {'start': ('seq', [('sep', REJ_B, ('str', ','), {'_op': '//'}), ('re', '[ab,]*', False)])}))
+    out.append(('where-token-sep-separator', {'start': ('seq', [('sep', ('str', 'a'), ('where', ('re', '[,b]', False), ('py', "lambda w: w == ','")), {'_op': '/?'}),
+                                                               ('re', '[ab,]*', False)])}))
+    out.append(('where-token-skip', {'start': ('seq', [('skip', [REJ_B]), REST])}))
+    out.append(('where-token-longest', {'start': ('seq', [('longest', [REJ_B, ('str', 'ba'), ('str', 'b')]), REST])}))
+    out.append(('where-str-bounded', {'start': ('seq', [('rep', ('where', ('str', 'a'), ('py', 'lambda w: False')), 0, 2), REST])}))
+    out.append(('where-token-expectnot', {'start': ('seq', [('expectnot', REJ_B), REST])}))
+    # bindings to FRESH mutable values that inline Python mutates later in the same parse: every
+    # evaluation (every parse, every attempt) gets its own object
+    out.append(('fresh-list-let', {'start': ('let', 'seen', ('py', '[]'), ('seq', [
+        ('star', ('apply', T, ('py', 'lambda w: (seen.append(w), len(seen))[1]'))), ('py', 'tuple(seen)')]))}))
+    out.append(('fresh-set-let', {'start': ('let', 'seen', ('py', 'set()'), ('seq', [
+        ('star', ('where', T, ('py', 'lambda w: w not in seen and not seen.add(w)'))), REST, ('py', 'sorted(seen)')]))}))
+    out.append(('fresh-dict-let-alt', {'start': ('alt', [
+        ('let', 'd', ('py', '{}'), ('seq', [('apply', T, ('py', "lambda w: d.setdefault(w, len(d))")), ('str', '!'), ('py', 'sorted(d.items())')])),
+        ('let', 'd', ('py', '{}'), ('seq', [('star', ('apply', T, ('py', "lambda w: d.setdefault(w, len(d))"))), ('py', 'sorted(d.items())')]))])}))
     # lookahead binding then real binding
     out.append(('expect-then-bind', {'start': ('seq', [
         ('expect', ('let', 'x', ('str', 'a'), R(1, 'x'))), ('let', 'x', T, ('seq', [T, R(2, 'x')]))])}))
@@ -111,6 +136,24 @@ def curated_classes():
         ('class', 'P', None, [('field', 'a', T), ('let', 'n', D), ('field', 'items', ('rep', ('str', 'x'), ('name', 'n'), ('name', 'n'))),
                               ('pass', ('opt', ('str', ','))), ('field', 'b', ('py', 'a + str(n)')),
                               ('requires', 'len(items) == n and n < 3')])]))
+    # fields (plain and let) handed on as BARE arguments -- values, not parsing expressions
+    out.append(('class-bare-field-arguments', [
+        ('rule', 'start', None, ('star', ('ref', 'Tg'))),
+        ('class', 'Tg', None, [('field', 'open', T), ('let', 'n', D), ('field', 'body', ('call', 'Rep', [('ref', 'n')])),
+                               ('field', 'close', ('call', 'Same', [('ref', 'open')])), ('field', 'both', ('call', 'Pair', [('kw', 'u', ('ref', 'open')), ('kw', 'v', ('ref', 'n'))]))]),
+        ('rule', 'Same', ['t'], ('where', T, ('py', 'lambda w: w == t'))),
+        ('rule', 'Pair', ['u', 'v'], ('py', '(u, v)')),
+        ('rule', 'Rep', ['k'], ('rep', ('str', 'x'), ('name', 'k'), ('name', 'k')))]))
+    out.append(('class-fresh-containers', [
+        ('rule', 'start', None, ('star', ('ref', 'L'))),
+        ('class', 'L', None, [('let', 'log', ('py', '[]')),
+                              ('field', 'items', ('plus', ('apply', T, ('py', 'lambda w: (log.append(w), len(log))[1]')))),
+                              ('field', 'a', ('py', '[]')), ('field', 'b', ('py', '[]')), ('field', 'same', ('py', 'a is b')),
+                              ('pass', ('opt', ('str', ',')))])]))
+    out.append(('class-where-token-star', [
+        ('rule', 'start', None, ('seq', [('star', ('ref', 'Bd')), ('re', '[ab()]*', False)])),
+        ('class', 'Bd', None, [('field', 'o', ('str', '(')), ('field', 'ws', ('star', ('where', T, ('py', "lambda w: w != 'b'")))),
+                               ('field', 'c', ('opt', ('str', ')')))])]))
     out.append(('class-recursive', [
         ('rule', 'start', None, ('ref', 'Node')),
         ('class', 'Node', None, [('field', 'tag', T),
@@ -248,9 +291,25 @@ EXTRA_INPUTS = {
 }
 
 
+# curated shapes the static analysis is too conservative for (a parameter under a repetition whose
+# every argument consumes): the reference model still re-checks progress dynamically on every input
+TRUSTED = {'class-param'}
+
+
+def inconclusive(counters, evaluations, tier):
+    if counters.get('curated_shapes_dropped', 0):
+        return ['%d curated shape(s) were dropped by the generator-side analysis and never ran' % counters['curated_shapes_dropped']]
+    return []
+
+
 def run_one(rec, G, tag, rounds, trace=False):
-    if not gen.well_formed(G):
+    curated_tag = tag[1] if isinstance(tag, tuple) and tag[0] == 'curated' else None
+    if curated_tag not in TRUSTED and not gen.well_formed(G):
         rec.drop()
+        if curated_tag is not None:
+            # a curated shape must never disappear silently
+            rec.count('curated_shapes_dropped')
+            rec.note('curated shape dropped by the well-formedness analysis: %s' % (curated_tag,))
         return
     try:
         chain = diff.refpeg.build_chain([G])
@@ -281,6 +340,10 @@ def run_shard(rec):
         idx += 1
         if rec.mine(idx):
             run_one(rec, dict(name=None, extends=None, stmts=stmts), ('curated', tag), rounds * 2, trace=True)
+        # the same through a grammar installed under a name (bound names vs. the parsing context)
+        idx += 1
+        if rec.mine(idx):
+            run_one(rec, dict(name=diff.unique_name('vt_c05'), extends=None, stmts=stmts), ('curated', tag, 'named'), rounds)
     for tag, rules in curated_shadow():
         idx += 1
         if rec.mine(idx):
